@@ -118,9 +118,9 @@ func init() {
 		Assumptions: []string{
 			"exact positions are asserted only with the Ahem font (1em square glyphs, ascent 0.8em, descent 0.2em), left-to-right ASCII text, no floats, no hyphenation, no letter/word spacing",
 			"with DejaVu Sans (/usr/share/fonts/truetype/dejavu/DejaVuSans.ttf) only inequalities with 2px slack are asserted",
-			"feature combinations that trigger the open defects of notes/C11.md (D2, D3, D5, D7-D11, D11b, D13-D16, D18, D19, D21, D22, G1, G3; D1, D4, D6, D12, D17, D20 are fixed and compared) are not generated or are skipped by the reference model's guards (counted as blocks_skipped_known_defect_*)",
+			"feature combinations that trigger the open defects of notes/C11.md (D2, D3, D5, D7-D11, D11b, D13-D16, D18, D19, G1, G3; D1, D4, D6, D12, D17, D20, D21, D22 are fixed and compared) are not generated or are skipped by the reference model's guards (counted as blocks_skipped_known_defect_*)",
 			"pre-wrap: plain text, single spaces, no space before a forced break; go-text engine: plain text in white-space normal/nowrap; overflow-wrap: pango engine, no word runs across an inline-box edge (D18), no indent (D14); word-break:break-all not compared",
-			"vertical-align: only top and bottom (other values: baseline); a top/bottom aligned inline box holds text, inline-blocks and top/bottom aligned inline boxes (a baseline-aligned inline box inside it is not moved with it: open defect D22, not generated); blocks where a top/bottom aligned inline box that holds another aligned subtree is moved away from its provisional baseline-on-baseline place are skipped (open defect D21: the nested subtree is moved twice; blocks_skipped_known_defect_D21); not combined with multi-piece words",
+			"vertical-align: only top and bottom (other values: baseline); a top/bottom aligned inline box holds text, inline-blocks, baseline-aligned and top/bottom aligned inline boxes (D21 nested subtree moved twice, D22 baseline-aligned inline box not moved with it: repaired in /repo 1c32c03, compared); not combined with multi-piece words",
 			"small pages: paragraphs without inline-blocks and own font sizes (lines of one height), orphans/widows 1; which line goes to which page is not asserted, only that fragmentation changes nothing in the lines",
 			"words made of several inline pieces: their boxes hold one run of letters (or one box holding one run), no white space between the two start / end edges of a nested piece (D11b); not generated with overflow-wrap (D18), pre-wrap or the go-text engine",
 		},
